@@ -3,26 +3,26 @@
 import json, os
 HERE = os.path.dirname(os.path.abspath(__file__)); VERIF = os.path.dirname(HERE)
 CHECKS = {
- "C01": ("finite-domain abstract interpretation (order types) of add_interaction / has_interaction; symbolic-list interpretation of bulk helpers",
-         "Decides for ALL integer timestamps (every order type of the arguments against the pair's last interval, every log shape, both classes, both endpoint orders) that the stored timeline is the union of the added spans, that the only rejections are the documented ones and that no other exception can escape; that has_interaction answers q in union; that bulk helpers only delegate. Exhaustive over the abstract domain, not a sample.",
+ "C01": ('finite-domain abstract interpretation (order types) of add_interaction / has_interaction; symbolic-list interpretation of bulk helpers',
+         "Decides for ALL integer timestamps (every order type of the arguments against the pair's last interval, every log shape, both classes, both endpoint orders, empty spans e <= t included) that the stored timeline is the union of the added spans, that the only rejections are the documented ones and that no other exception can escape; that has_interaction answers q in union; that bulk helpers only delegate. Exhaustive over the abstract domain, not a sample.",
          "3.2, 4/C01"),
  "C03": ("order-type abstract interpretation + ownership (taint) analysis + endpoint-convention typing of constructors",
          "Canonical form is re-established by every accepting path of add_interaction for all integers; no other function writes timelines/event log/counters/adjacency (165 functions scanned); library constructors re-add intervals as (start, end+1).",
          "3.2, 3.4, 4/C03"),
- "C04": ("order-type abstract interpretation of the counter update vs the reader's divisor; abstract interpretation of the readers; purity (taint) rule",
-         "Counter multiplicity rule (rise by the reader's divisor exactly on newly present instants) for all integers; ids reader = ascending sorted keys; asking about an uninhabited instant returns 0 and creates no key; avg_number_of_nodes shape; observers write nothing.",
+ "C04": ("order-type abstract interpretation of the counter update vs the reader's divisor; abstract interpretation of the readers on a concrete-symbolic index and of avg_number_of_nodes on symbolic graphs; purity (taint) rule",
+         "Counter multiplicity rule (rise by the reader's divisor exactly on newly present instants) for all integers; temporal_snapshots_ids ascending on an index filled out of order; interactions_per_snapshots = counter/divisor, 0 and no key creation for an uninhabited instant, map form; avg_number_of_nodes = mean of |V_t| over the ids on all 64 presence valuations of a 4-node graph (both classes, a backward-pointing directed pair included); observers write nothing.",
          "3.2, 4/C04"),
  "C05": ("order-type abstract interpretation of the event-log writes; abstract interpretation of stream_interactions",
          "Event-log invariant ('+' at run starts, '-' only at run end+1, longer runs closed, one orientation per undirected pair, no foreign keys touched, no KeyError/TypeError) re-established on every path for all integers and all co-located events of other pairs; stream = sorted instants x stored keys. One pinned deviation is listed as a known finding.",
          "3.2, 4/C05"),
- "C07": ("effect-log ordering in the abstract interpretation (no write precedes a raise); interpretation of bulk helpers",
-         "In every abstract run that ends in a raise the effect log is empty, for all order types and both modes; bulk helpers apply elements strictly in order through add_interaction, outside try, and never raise themselves.",
+ "C07": ('net state change at every raise in the abstract interpretation (event log, timeline heap, nodes, links, counters compared with the pre-state); rejection worlds with an explicit earlier run; interpretation of bulk helpers',
+         'In every abstract run that ends in a raise the abstract state equals the pre-state (a write that is taken back exactly is not a trace, one that takes an older event with it is), for all order types and both modes, including rejected calls whose start or vanishing time coincides with an event of an earlier run; bulk helpers apply elements strictly in order through add_interaction, outside try, write nothing themselves and never raise themselves.',
          "3.3 P1, 4/C07"),
  "C08": ("order-type abstract interpretation with edge_removal=False (mutator and presence test)",
          "Accumulative valuation: '+' only for a new pair, never '-', first start immutable, snapshot key {t}, no exception, presence = first_start <= q <= largest id - for all integers.",
          "3.2, 4/C08"),
- "C02": ("abstract interpretation of all 53 query entry points on small symbolic graphs with presence as an uninterpreted predicate (all valuations); purity (taint) rule",
-         "Each query's interpreted answer equals the projection of the static graph of present pairs: filtered through the presence test with the right orientation, every interaction once, nbunch through nbunch_iter (incl. one-shot iterators and unknown nodes), wrappers forward their arguments, both removal modes. Bounded graph shapes (4 nodes); arithmetic on self-loops not decided. Two pinned deviations are known findings.",
+ "C02": ('abstract interpretation of all 53 query entry points on small symbolic graphs with presence as an uninterpreted predicate (all valuations); mode-consistent materialised timelines for get_node_snapshots; purity (taint) rule',
+         "Each query's interpreted answer equals the projection of the static graph of present pairs: filtered through the presence test with the right orientation, every interaction once, nbunch through nbunch_iter (incl. one-shot iterators and unknown nodes), wrappers forward their arguments, both removal modes; counting queries also on shapes with a self-loop (a loop adds two to the degree and is one interaction). Bounded graph shapes (4 nodes). Pinned deviations (directed enumeration de-dup, density(t), self-loop halving) are known findings.",
          "3.6 S1, 4/C02"),
  "C06": ("order-type abstract interpretation of time_slice into a recording result graph; endpoint-convention typing; purity",
          "For every order type of the window against a canonical timeline: exactly one add_interaction(u, v, max(a,F), min(b,T)+1) per interval meeting the window, none otherwise, in order; ValueError iff t_to < t_from; default t_to = t_from; result class; node attributes; source untouched.",
@@ -36,8 +36,8 @@ CHECKS = {
  "C11": ("abstract interpretation of node_link_data (canonical timelines) and of node_link_graph on symbolic data",
          "Writer: directed flag, graph attrs, one entry per node with id, exactly one link per instant of presence, unswapped. Reader: class from the data (argument only as fallback), every node under its id with remaining attrs, one add_interaction per link, graph attrs. JSON equality itself is not decided.",
          "3.1, 3.6, 4/C11"),
- "C16": ("abstract interpretation of the conversions into a recording result graph; endpoint-convention typing; swallowed-rejection rule; purity",
-         "Every stored interval [a,b] is re-added as (a, b+1) with instants (never the stored list objects); all nodes added; graph/node attributes deep-copied; no write to the source; no try around add_interaction with a broad silent handler. The to_directed one-direction behaviour is a known finding. Reciprocal intersection: conventions of its operands only (quick).",
+ "C16": ('abstract interpretation of the conversions into a recording result graph: per pair over order types, reciprocal branch with interval-set values, and at graph level on 4-node symbolic graphs with both directions of a pair varied; endpoint-convention typing; swallowed-rejection rule; purity',
+         "Every stored interval [a,b] is re-added as (a, b+1) with instants (never the stored list objects); all nodes added; graph/node attributes deep-copied; no write to the source; reciprocal=True re-adds exactly the non-empty intersections in increasing order (all order types of 4-6 interval ends); at graph level the presence relation of the result (recorded calls replayed by the specification of add_interaction) equals union / intersection / both directions pair by pair and instant by instant. to_directed's single direction and the directed enumeration de-dup are known findings.",
          "3.1, 3.3 P6, 4/C16"),
  "C18": ('abstract interpretation of both parsers and read_ids on a structural model of text lines; compact_timeslot on symbolic timestamps over all orderings',
          'Every row shape of the grammar (valid, 4-column, extra column, short, trailing comment, comment only, empty, bare newline, blanks, padded, no newline) x delimiter None/explicit x nodetype/timestamptype/keys: skipped silently, or exactly one add_interaction with converted/ranked fields of the right columns, or TypeError for a failing conversion; read_ids ranks exactly the time fields of accepted rows; compact_timeslot returns ranks (negative timestamps included when it compares with literals).',
@@ -46,16 +46,16 @@ CHECKS = {
          "Every public callable of the MRO that can change adjacency/node structure through self is a timestamped owner or lands on an always-raising override; required-blocked names resolve to always-raising definitions; base-class calls go to the direct base and reset both indexes; freeze shadows every mutator not blocked for all graphs. Pinned deviations (freeze vs add_interaction; update(nodes=)) are known findings.",
          "3.5, 4/C19"),
  "C12": ('abstract interpretation of time_respecting_paths (temporal_dag inlined, simple paths computed on the recorded DAG) on symbolic temporal graphs with presence as an uninterpreted predicate; window construction over all orderings',
-         'Every returned path is judged against every clause of the statement (non-empty, leaves u, chained, strictly increasing times in the window, each hop present and oriented, no reversal, waiting only through active instants, reaches v, key, no duplicates) on bounded shapes (3-4 nodes, 2-3 stored pairs, ids t+1,t+2,t+4, all presence valuations; directed and undirected); the ids expanded are exactly those in [start,end] for all orderings. Larger graphs and completeness (C13) are not decided.',
+         'Every returned path is judged against every clause of the statement (non-empty, leaves u, chained, strictly increasing times in the window, each hop present and oriented, no reversal, waiting only through active instants, reaches v, key, no duplicates) on bounded shapes (3-4 nodes, 2-3 stored pairs, ids t+1,t+2,t+4, all presence valuations; walks that return to their source on targeted valuations; directed and undirected); the ids expanded are exactly those in [start,end] for all orderings. Larger graphs and completeness (C13) are not decided.',
          "4/C12"),
  "C14": ("abstract interpretation of annotate_paths on generic paths over all orderings (ties) and input permutations",
          "The five answers equal the argmin sets for every ordering of hop counts, durations and arrival times of three generic paths, in every input order (2197 order types x 6); zero-valued minima covered when the code tests for truth.",
          "3.6 S2, 4/C14"),
  "C15": ('abstract interpretation of temporal_dag on symbolic temporal graphs (recording DAG, structured occurrence names) judged clause by clause; prefix (defaults, guard, window; bisect/slices as rank arithmetic) over all orderings',
-         'Edge soundness and orientation, s<t except from source occurrences, sources exact, targets occurrences of v and DAG nodes, waiting only through active instants - on bounded shapes incl. a label that is a prefix of another and non-chronological insertion order of snapshot ids; ValueError exactly for invalid windows; empty DAG without snapshots; window ids exact and ascending for all orderings. Acyclicity follows from s<t on these clauses; larger graphs are not decided.',
+         'Edge soundness and orientation, s<t except from source occurrences, no edge from an occurrence to itself, sources exact, targets occurrences of v and DAG nodes, waiting only through active instants - on bounded shapes incl. a label that is a prefix of another, a self-loop on the root and non-chronological insertion order of snapshot ids; ValueError exactly for invalid windows; empty DAG without snapshots; window ids exact and ascending for all orderings. Acyclicity follows from these clauses; larger graphs are not decided.',
          "3.2, 4/C15"),
- "C17": ('abstract interpretation of the four inter-event distributions on symbolic event streams and of seven ratio statistics on a symbolic graph (exact fractions); interval-length typing; purity',
-         'Global / per-node (either, source, target) / per-pair distributions equal the gap histograms on streams with ties, equal gaps and an emptied log bucket; coverage, node_contribution, uniformity, node_pair_uniformity, density, pair_density, node_presence equal their definitions on all 16 presence valuations of a 4-node graph with two non-adjacent snapshot ids; edge_contribution measures closed intervals as end-start+1; observers pure. node_density / snapshot_density not covered; bounded shapes.',
+ "C17": ('abstract interpretation of the four inter-event distributions on symbolic event streams and of seven ratio statistics on a symbolic graph with materialised timelines (exact fractions); interval-length typing; purity',
+         'Global / per-node (either, source, target) / per-pair distributions equal the gap histograms on streams with ties, equal gaps and an emptied log bucket; coverage, node_contribution, uniformity, node_pair_uniformity, density, pair_density, node_presence equal their definitions on 49 (thorough: 1024) presence valuations of a 4-node graph with seven snapshot ids (runs, holes, nested and staggered runs; |T| differs from the span); edge_contribution measures closed intervals as end-start+1; observers pure. node_density / snapshot_density not covered; bounded shapes.',
          "4/C17"),
 }
 NA = [
